@@ -45,7 +45,7 @@ ASSUMPTIONS = [
     "hostile absolute paths and traversals stay inside the scratch area (the harness must not touch the real file system)",
     "allowed resource directories: <repo>/pdfminer/cmap and the directory named by CMAP_PATH",
 ]
-PROBES = ["site:encoding-name", "site:cmapname-stream", "site:usecmap", "site:registry-ordering", "site:image-name", "site:image-attr", "name:dotdot", "name:absolute", "name:nul", "name:long", "name:existing-file", "name:separator", "name:sibling-prefix", "name:lookalike", "state:CMAP_PATH unset", "state:long run of occupied names", "state:outdir-absent", "state:outdir-nested", "state:preexisting-image-name", "second export in the same process", "image exported", "bait file present at traversal target"]
+PROBES = ["site:encoding-name", "site:cmapname-stream", "site:usecmap", "site:registry-ordering", "site:image-name", "site:image-attr", "name:dotdot", "name:absolute", "name:nul", "name:long", "name:existing-file", "name:separator", "name:sibling-prefix", "name:lookalike", "state:CMAP_PATH unset", "image:oversize", "state:long run of occupied names", "state:outdir-absent", "state:outdir-nested", "state:preexisting-image-name", "second export in the same process", "image exported", "bait file present at traversal target"]
 TIERS = {
     "quick": {"batches": 16, "runs": 500, "budget_s": 45},
     "thorough": {"batches": 128, "runs": 500, "budget_s": 900},
@@ -196,15 +196,20 @@ def build_document(t, ctx, fsroot):
         else:
             kind = t.pick(["gray", "rgb", "jpeg", "raw", "1bit"], "img.kind")
             w, h = t.rint(1, 5, "img.w"), t.rint(1, 4, "img.h")
+            if t.coin(8, 100, "img.oversize"):
+                # a declared size no export format can hold (the export fails): failing must not touch anything either
+                w, h = t.pick([(70000, 70000), (2**31, 1), (1, 2**31), (2**31 - 1, 3)], "img.oversize.wh")
+                kind = t.pick(["gray", "rgb", "1bit"], "img.oversize.kind")
+                ctx.probe("image:oversize")
             common = {b"Type": Name(b"XObject"), b"Subtype": Name(b"Image"), b"Width": w, b"Height": h}
             if kind == "gray":
-                img = docs.content_stream(bytes(range(w * h)), flate=True, extra={**common, **{b"BitsPerComponent": 8, b"ColorSpace": Name(b"DeviceGray")}})
+                img = docs.content_stream(bytes(range(min(w * h, 20))), flate=True, extra={**common, **{b"BitsPerComponent": 8, b"ColorSpace": Name(b"DeviceGray")}})
             elif kind == "rgb":
-                img = docs.content_stream(bytes(range(w * h * 3)), flate=True, extra={**common, **{b"BitsPerComponent": 8, b"ColorSpace": Name(b"DeviceRGB")}})
+                img = docs.content_stream(bytes(range(min(w * h * 3, 60))), flate=True, extra={**common, **{b"BitsPerComponent": 8, b"ColorSpace": Name(b"DeviceRGB")}})
             elif kind == "jpeg":
                 img = docs.content_stream(b"\xff\xd8\xff\xe0fakejpeg\xff\xd9", extra={**common, **{b"BitsPerComponent": 8, b"ColorSpace": Name(b"DeviceRGB"), b"Filter": Name(b"DCTDecode")}})
             elif kind == "1bit":
-                img = docs.content_stream(bytes(((w + 7) // 8) * h), flate=True, extra={**common, **{b"BitsPerComponent": 1, b"ColorSpace": Name(b"DeviceGray")}})
+                img = docs.content_stream(bytes(min(((w + 7) // 8) * h, 32)), flate=True, extra={**common, **{b"BitsPerComponent": 1, b"ColorSpace": Name(b"DeviceGray")}})
             else:
                 img = docs.content_stream(bytes(range(w * h * 2)).hex().encode() + b">", extra={**common, **{b"BitsPerComponent": 16, b"ColorSpace": Name(b"DeviceGray"), b"Filter": [Name(b"ASCIIHexDecode")]}})
             xobjs[nm] = alloc(img)
@@ -384,7 +389,19 @@ def run(tape, ctx, item=None):
                 nbait += 1
             except OSError:
                 pass
-        # the working directory is not a resource directory either: bait pickles under the plain names lie there
+        # the working directory is not a resource directory either: bait pickles under the plain names lie there, and
+        # files called like the images (the output directory is somewhere else)
+        for site, nm in names:
+            if site == "image-name":
+                flat0 = os.path.basename(nm.replace(b"\x00", b"_").decode("latin-1").replace("/", "_").replace("\\", "_"))
+                if flat0 and len(flat0) < 100 and flat0 not in (".", ".."):
+                    for ext in (".bmp", ".jpg"):
+                        try:
+                            with open(_guard(scratch_top, os.path.join(fsroot, "work", flat0 + ext)), "wb") as f:
+                                f.write(b"a file of the same name in the working directory")
+                            nbait += 1
+                        except OSError:
+                            pass
         for site, nm in names:
             s0 = nm.replace(b"\x00", b"").decode("latin-1")
             if site != "image-name" and s0 and "/" not in s0 and "\\" not in s0 and len(s0) < 100 and s0 not in (".", ".."):
